@@ -23,7 +23,9 @@ import traceback
 VERIF = os.path.dirname(os.path.dirname(os.path.abspath(__file__)))
 REPO = os.environ.get('VERIF_REPO', '/repo')
 COQ = os.path.join(VERIF, 'coq')
-WORK = os.path.join(VERIF, '.work')
+WORK = os.environ.get('VERIF_WORK_DIR') or os.path.join(VERIF, '.work')
+EVID = os.environ.get('VERIF_EVIDENCE_DIR') or os.path.join(VERIF, 'evidence')
+REPL = os.environ.get('VERIF_REPLAY_DIR') or os.path.join(VERIF, 'replays')
 PY = '/venv/bin/python'
 NPROC = min(16, os.cpu_count() or 4)
 
@@ -373,9 +375,9 @@ def load_known():
 
 
 def write_replay(prop, kind, payload):
-    os.makedirs(os.path.join(VERIF, 'replays'), exist_ok=True)
+    os.makedirs(REPL, exist_ok=True)
     h = hashlib.md5(json.dumps(payload, sort_keys=True, default=str).encode()).hexdigest()[:10]
-    p = os.path.join(VERIF, 'replays', '%s_%s_%s.json' % (prop, kind, h))
+    p = os.path.join(REPL, '%s_%s_%s.json' % (prop, kind, h))
     payload = dict(payload)
     payload['property'] = prop
     payload['kind'] = kind
@@ -455,8 +457,8 @@ def finish(ctx, level_note_assumptions):
         'violations': violations,
     }
     ev['coverage'].update(ctx.extra)
-    os.makedirs(os.path.join(VERIF, 'evidence'), exist_ok=True)
-    json.dump(ev, open(os.path.join(VERIF, 'evidence', ctx.prop + '.json'), 'w'), indent=1, default=str)
+    os.makedirs(EVID, exist_ok=True)
+    json.dump(ev, open(os.path.join(EVID, ctx.prop + '.json'), 'w'), indent=1, default=str)
     shutil.rmtree(ctx.workdir, ignore_errors=True)
     print('%s %s: obligations %d/%d, cases %d (nontrivial %d), model cases %d, disagreements %d, failures %d -> %s (%.1fs)'
           % (ctx.prop, ctx.tier, ctx.discharged, ctx.obligations, ctx.evaluations, len(ctx.nontrivial), ctx.model_cases,
